@@ -42,9 +42,8 @@ macro_rules! c13_ghost_support {
         pub(crate) const B_CAP: usize = 80;
         pub(crate) const MAX_CALLS: usize = 16;
 
-        /// One recorded provider call.  Arguments are stored zero padded in fixed arrays so
-        /// that two of them can be compared with a few u128 comparisons instead of a loop
-        /// (every loop of a harness is unwound up to the harness-wide bound).
+        /// One recorded provider call.  Arguments are stored zero padded in fixed arrays
+        /// (no heap, no drop glue).
         #[derive(Clone, Copy)]
         pub(crate) struct Call {
             pub op: Op,
@@ -69,30 +68,26 @@ macro_rules! c13_ghost_support {
             o
         }
 
-        fn chunk(x: &[u8], at: usize) -> u128 {
-            let c: [u8; 16] = [
-                x[at], x[at + 1], x[at + 2], x[at + 3], x[at + 4], x[at + 5], x[at + 6], x[at + 7],
-                x[at + 8], x[at + 9], x[at + 10], x[at + 11], x[at + 12], x[at + 13], x[at + 14],
-                x[at + 15],
-            ];
-            u128::from_be_bytes(c)
+        /// x (zero padded, length n) == y; the loop bound is the capacity so that it stays a
+        /// concrete bound even when a length is symbolic
+        pub(crate) fn eq_padded(x: &[u8], n: usize, y: &[u8]) -> bool {
+            if n != y.len() {
+                return false;
+            }
+            let mut k = 0;
+            while k < x.len() && k < n {
+                if x[k] != y[k] {
+                    return false;
+                }
+                k += 1;
+            }
+            true
         }
 
-        pub(crate) fn eq_a(x: &[u8; A_CAP], y: &[u8; A_CAP]) -> bool {
-            chunk(x, 0) == chunk(y, 0)
-        }
-
-        pub(crate) fn eq_b(x: &[u8; B_CAP], y: &[u8; B_CAP]) -> bool {
-            chunk(x, 0) == chunk(y, 0)
-                && chunk(x, 16) == chunk(y, 16)
-                && chunk(x, 32) == chunk(y, 32)
-                && chunk(x, 48) == chunk(y, 48)
-                && chunk(x, 64) == chunk(y, 64)
-        }
-
-        /// equality of two byte strings of length <= B_CAP, without a loop
+        /// equality of two byte strings of length <= B_CAP
         pub(crate) fn bytes_eq(x: &[u8], y: &[u8]) -> bool {
-            x.len() == y.len() && eq_b(&pad_b(x), &pad_b(y))
+            assert!(x.len() <= B_CAP);
+            eq_padded(&pad_b(x), x.len(), y)
         }
 
         #[derive(Debug)]
@@ -210,13 +205,12 @@ macro_rules! c13_ghost_support {
                 if i >= self.n.get() {
                     return false;
                 }
-                let c = self.trace.borrow()[i];
+                let t = self.trace.borrow();
+                let c = &t[i];
                 c.op == op
                     && c.len == len
-                    && c.a_len == a.len()
-                    && c.b_len == b.len()
-                    && eq_a(&c.a, &pad_a(a))
-                    && eq_b(&c.b, &pad_b(b))
+                    && eq_padded(&c.a, c.a_len, a)
+                    && eq_padded(&c.b, c.b_len, b)
             }
 
             /// the output tag of THE call `op(a, b, len)`; None if there is none or more than one
@@ -244,15 +238,8 @@ macro_rules! c13_ghost_support {
                 }
                 let mut i = 0;
                 while i < n {
-                    let c = self.trace.borrow()[i];
                     let d = q.trace.borrow()[i];
-                    if !(c.op == d.op
-                        && c.len == d.len
-                        && c.a_len == d.a_len
-                        && c.b_len == d.b_len
-                        && eq_a(&c.a, &d.a)
-                        && eq_b(&c.b, &d.b))
-                    {
+                    if !self.is(i, d.op, &d.a[..d.a_len], &d.b[..d.b_len], d.len) {
                         return false;
                     }
                     i += 1;
@@ -667,13 +654,20 @@ macro_rules! c13_ghost_support {
 
 crate::c13_ghost_support!();
 
+use crate::group::epoch::{EpochSecrets, SenderDataSecret};
 use crate::group::SecretTree;
+
+// NOTE ON HARNESS SIZE.  Kani's time per harness grows faster than linearly with the amount
+// of code executed (CBMC rebuilds a full trace for every batch of reachability checks), and
+// every KDF call of the real code costs 5-10 s.  Case splits are therefore spread over
+// several small harnesses (generated by macros) rather than done inside one.
 
 // ============================================================ 1. ExpandWithLabel
 // RFC 9420 section 8:  ExpandWithLabel(Secret, Label, Context, Length) =
 //     KDF.Expand(Secret, KDFLabel, Length)
 // Domain: every Length in 0..=65535 (the range of KDFLabel.length; `None` = KDF.Nh), every
-// secret, label and context of length 0..=4 with symbolic bytes.
+// secret of length 0..=4, label of length 0..=4 (one harness per length) and context of
+// length 0..=4, all bytes symbolic.
 fn expand_with_label_case(secret: &[u8], label: &[u8], context: &[u8]) {
     let p = GhostProvider::new();
     let len: usize = kani::any();
@@ -702,38 +696,44 @@ fn expand_with_label_case(secret: &[u8], label: &[u8], context: &[u8]) {
     core::mem::forget(o);
 }
 
-#[kani::proof]
-#[kani::stub(zeroize::optimization_barrier, noop_barrier)]
-#[kani::unwind(12)]
-fn c13_kdf_expand_with_label_bounded_4() {
-    let secret = any_bytes::<4>();
-    let l: [u8; 4] = kani::any();
-    let c: [u8; 4] = kani::any();
-    for_each_prefix(&l, |label| {
-        for_each_prefix(&c, |context| expand_with_label_case(&secret, label, context))
-    });
+macro_rules! expand_with_label_harness {
+    ($($name:ident: $ll:literal),* $(,)?) => { $(
+        #[kani::proof]
+        #[kani::stub(zeroize::optimization_barrier, noop_barrier)]
+        #[kani::unwind(82)]
+        fn $name() {
+            let secret = any_bytes::<4>();
+            let l: [u8; $ll] = kani::any();
+            let c: [u8; 4] = kani::any();
+            for_each_prefix(&c, |context| expand_with_label_case(&secret, &l, context));
+        }
+    )* };
 }
+
+expand_with_label_harness!(
+    c13_kdf_expand_with_label_l0_bounded_4: 0,
+    c13_kdf_expand_with_label_l1_bounded_4: 1,
+    c13_kdf_expand_with_label_l2_bounded_4: 2,
+    c13_kdf_expand_with_label_l3_bounded_4: 3,
+    c13_kdf_expand_with_label_l4_bounded_4: 4,
+);
 
 // the two-byte form of the `<V>` length header: "MLS 1.0 " + 55 bytes = 63 (one byte),
 // + 56 bytes = 64 (two bytes 0x40 0x40)
 #[kani::proof]
 #[kani::stub(zeroize::optimization_barrier, noop_barrier)]
-#[kani::unwind(12)]
+#[kani::unwind(82)]
 fn c13_kdf_expand_with_label_long_label() {
     let secret = any_exact::<NH>();
     let l: [u8; 56] = kani::any();
     let c: [u8; 1] = kani::any();
-    if kani::any() {
-        expand_with_label_case(&secret, &l[..55], &c);
-    } else {
-        expand_with_label_case(&secret, &l[..56], &c);
-    }
+    for_each_bool(|longer| expand_with_label_case(&secret, if longer { &l[..56] } else { &l[..55] }, &c));
 }
 
 // a provider failure is reported as MlsError::CryptoProviderError, after exactly one call
 #[kani::proof]
 #[kani::stub(zeroize::optimization_barrier, noop_barrier)]
-#[kani::unwind(12)]
+#[kani::unwind(82)]
 fn c13_kdf_expand_with_label_provider_error() {
     let p = GhostProvider::failing_at(0);
     let secret = any_exact::<NH>();
@@ -752,7 +752,7 @@ fn c13_kdf_expand_with_label_provider_error() {
 // DeriveSecret(Secret, Label) = ExpandWithLabel(Secret, Label, "", KDF.Nh)
 #[kani::proof]
 #[kani::stub(zeroize::optimization_barrier, noop_barrier)]
-#[kani::unwind(12)]
+#[kani::unwind(82)]
 fn c13_kdf_derive_secret_bounded_4() {
     let secret = any_bytes::<4>();
     let l: [u8; 4] = kani::any();
@@ -797,58 +797,71 @@ fn recording_tree_new<T: crate::tree_kem::math::TreeIndex>(
         (*core::ptr::addr_of_mut!(TREE_NEW_SECRET)).copy_from_slice(&encryption_secret);
         *core::ptr::addr_of_mut!(TREE_NEW_LEAVES) = core::mem::transmute_copy::<T, u32>(&leaf_count);
     }
+    core::mem::forget(encryption_secret);
     SecretTree::empty()
-}
-
-fn check_epoch_secrets(
-    p: &GhostProvider,
-    first_call: usize,
-    epoch_secret: &[u8],
-    r: &KeyScheduleDerivationResult,
-) {
-    // exactly nine derivations from the epoch secret
-    assert!(p.calls() == first_call + 9);
-    let ks = &r.key_schedule;
-    let es = &r.epoch_secrets;
-    assert!(is_out(&es.sender_data_secret, derived(p, epoch_secret, b"sender data"), NH));
-    assert!(is_out(&ks.exporter_secret, derived(p, epoch_secret, b"exporter"), NH));
-    assert!(is_out(&ks.external_secret, derived(p, epoch_secret, b"external"), NH));
-    assert!(is_out(&r.confirmation_key, derived(p, epoch_secret, b"confirm"), NH));
-    assert!(is_out(&ks.membership_key, derived(p, epoch_secret, b"membership"), NH));
-    assert!(is_out(es.resumption_secret.raw_value(), derived(p, epoch_secret, b"resumption"), NH));
-    assert!(is_out(&ks.authentication_secret, derived(p, epoch_secret, b"authentication"), NH));
-    assert!(is_out(&ks.init_secret.0, derived(p, epoch_secret, b"init"), NH));
-    // encryption_secret becomes the root secret of the epoch's secret tree
-    let enc = derived(p, epoch_secret, b"encryption");
-    unsafe {
-        assert!(*core::ptr::addr_of!(TREE_NEW_CALLS) == 1);
-        assert!(is_out(&*core::ptr::addr_of!(TREE_NEW_SECRET), enc, NH));
-        assert!(*core::ptr::addr_of!(TREE_NEW_LEAVES) == TREE_SIZE);
-    }
 }
 
 #[kani::proof]
 #[kani::stub(zeroize::optimization_barrier, noop_barrier)]
 #[kani::stub(std::hash::RandomState::new, fixed_random_state)]
 #[kani::stub(crate::group::secret_tree::SecretTree::new, recording_tree_new)]
-#[kani::unwind(16)]
+#[kani::unwind(82)]
 fn c13_from_epoch_secret() {
     let p = GhostProvider::new();
     let epoch_secret = any_exact::<NH>();
     let r = KeySchedule::from_epoch_secret(&p, &epoch_secret, TREE_SIZE);
     assert!(r.is_ok());
     let r = r.ok().unwrap();
-    check_epoch_secrets(&p, 0, &epoch_secret, &r);
+
+    // exactly nine derivations from the epoch secret
+    assert!(p.calls() == 9);
+    let ks = &r.key_schedule;
+    let es = &r.epoch_secrets;
+    let s = &epoch_secret;
+    assert!(is_out(&es.sender_data_secret, derived(&p, s, b"sender data"), NH));
+    assert!(is_out(&ks.exporter_secret, derived(&p, s, b"exporter"), NH));
+    assert!(is_out(&ks.external_secret, derived(&p, s, b"external"), NH));
+    assert!(is_out(&r.confirmation_key, derived(&p, s, b"confirm"), NH));
+    assert!(is_out(&ks.membership_key, derived(&p, s, b"membership"), NH));
+    assert!(is_out(es.resumption_secret.raw_value(), derived(&p, s, b"resumption"), NH));
+    assert!(is_out(&ks.authentication_secret, derived(&p, s, b"authentication"), NH));
+    assert!(is_out(&ks.init_secret.0, derived(&p, s, b"init"), NH));
+    // encryption_secret becomes the root secret of the epoch's secret tree
+    let enc = derived(&p, s, b"encryption");
+    unsafe {
+        assert!(*core::ptr::addr_of!(TREE_NEW_CALLS) == 1);
+        assert!(is_out(&*core::ptr::addr_of!(TREE_NEW_SECRET), enc, NH));
+        assert!(*core::ptr::addr_of!(TREE_NEW_LEAVES) == TREE_SIZE);
+    }
     assert!(r.joiner_secret.0.is_empty());
+    core::mem::forget(r);
+}
+
+// a provider failure at any of the nine derivations is reported as CryptoProviderError
+#[kani::proof]
+#[kani::stub(zeroize::optimization_barrier, noop_barrier)]
+#[kani::stub(std::hash::RandomState::new, fixed_random_state)]
+#[kani::stub(crate::group::secret_tree::SecretTree::new, recording_tree_new)]
+#[kani::unwind(82)]
+fn c13_from_epoch_secret_provider_error() {
+    let at: usize = kani::any();
+    kani::assume(at < 9);
+    let p = GhostProvider::failing_at(at);
+    let epoch_secret = any_exact::<NH>();
+    let r = KeySchedule::from_epoch_secret(&p, &epoch_secret, TREE_SIZE);
+    assert!(is_provider_error(&r));
+    assert!(p.calls() == at + 1);
     core::mem::forget(r);
 }
 
 // ============================================================ 4. joiner / epoch / welcome
 // (GroupContext oracle `rfc_group_context` and builder `group_context`: shared support above)
+//
 // The bytes that from_key_schedule / from_joiner feed into the "joiner" / "epoch" labels
 // (`context.mls_encode_to_vec()`) are the RFC GroupContext encoding: all field values
-// symbolic, group_id / tree_hash / confirmed_transcript_hash of every length 0..=2, no
-// extension or one extension with 0..=1 data bytes.
+// symbolic, group_id of length 0..=2 (one harness per length), tree_hash and
+// confirmed_transcript_hash of every length 0..=1, no extension or one extension with 0..=1
+// data bytes.
 fn group_context_case(gid: &[u8], th: &[u8], cth: &[u8], ext: Option<&[u8]>) {
     let c = group_context(gid, th, cth, ext);
     let enc = c.mls_encode_to_vec();
@@ -858,52 +871,54 @@ fn group_context_case(gid: &[u8], th: &[u8], cth: &[u8], ext: Option<&[u8]>) {
     core::mem::forget(c);
 }
 
-#[kani::proof]
-#[kani::unwind(12)]
-fn c13_group_context_encoding_bounded_2() {
-    let g: [u8; 2] = kani::any();
-    let t: [u8; 2] = kani::any();
-    let h: [u8; 2] = kani::any();
-    let e: [u8; 1] = kani::any();
-    let with_ext: bool = kani::any();
-    for_each_prefix(&g, |gid| {
-        for_each_prefix(&t, |th| {
-            for_each_prefix(&h, |cth| {
-                if with_ext {
-                    for_each_prefix(&e, |ed| group_context_case(gid, th, cth, Some(ed)));
-                } else {
-                    group_context_case(gid, th, cth, None);
-                }
-            })
-        })
-    });
+macro_rules! group_context_encoding_harness {
+    ($($name:ident: $gl:literal),* $(,)?) => { $(
+        #[kani::proof]
+        #[kani::unwind(82)]
+        fn $name() {
+            let g: [u8; $gl] = kani::any();
+            let t: [u8; 1] = kani::any();
+            let h: [u8; 1] = kani::any();
+            let e: [u8; 1] = kani::any();
+            for_each_prefix(&t, |th| {
+                for_each_prefix(&h, |cth| {
+                    for_each_bool(|with_ext| {
+                        if with_ext {
+                            for_each_prefix(&e, |ed| group_context_case(&g, th, cth, Some(ed)));
+                        } else {
+                            group_context_case(&g, th, cth, None);
+                        }
+                    })
+                })
+            });
+        }
+    )* };
 }
 
-/// a PskSecret with a value that no call of the provider under test can produce
-/// ([101; NH], from a second ghost provider whose tags start at 101)
-fn foreign_psk_secret() -> (PskSecret, Vec<u8>) {
-    let mut q = GhostProvider::new();
-    q.tag_base = 100;
-    let input = [crate::psk::secret::PskSecretInput {
-        id: crate::psk::PreSharedKeyID {
-            key_id: crate::psk::JustPreSharedKeyID::External(crate::psk::ExternalPskId::new(vec![])),
-            psk_nonce: crate::psk::PskNonce(vec![]),
-        },
-        psk: crate::psk::PreSharedKey::new(vec![]),
-    }];
-    let s = PskSecret::calculate(&input, &q).ok().unwrap();
-    assert!(is_out(&s, 103, NH));
-    (s, out(103, NH))
+group_context_encoding_harness!(
+    c13_group_context_encoding_g0_bounded_1: 0,
+    c13_group_context_encoding_g1_bounded_1: 1,
+    c13_group_context_encoding_g2_bounded_1: 2,
+);
+
+/// a PskSecret with symbolic content.  Its only field is private to psk/secret.rs and the
+/// constructors yield zeros (`new`) or need a provider run (`calculate`); PskSecret is a
+/// newtype of Zeroizing<Vec<u8>>, itself a newtype of Vec<u8>.
+fn any_psk_secret() -> (PskSecret, Vec<u8>) {
+    let v = any_exact::<NH>();
+    let s: PskSecret = unsafe { core::mem::transmute::<Vec<u8>, PskSecret>(v.clone()) };
+    assert!(s.len() == NH && s[0] == v[0] && s[1] == v[1]);
+    (s, v)
 }
 
 // pre-epoch ("member") secret = KDF.Extract(salt = joiner_secret, ikm = psk_secret)
 #[kani::proof]
 #[kani::stub(zeroize::optimization_barrier, noop_barrier)]
-#[kani::unwind(12)]
+#[kani::unwind(82)]
 fn c13_get_pre_epoch_secret() {
     let p = GhostProvider::new();
     let joiner = any_exact::<NH>();
-    let (psk, psk_bytes) = foreign_psk_secret();
+    let (psk, psk_bytes) = any_psk_secret();
     let js = JoinerSecret::from(Zeroizing::new(joiner.clone()));
     let r = get_pre_epoch_secret(&p, &psk, &js);
     assert!(r.is_ok());
@@ -915,6 +930,18 @@ fn c13_get_pre_epoch_secret() {
     assert!(is_out(&PskSecret::new(&p), 0, NH));
 }
 
+#[kani::proof]
+#[kani::stub(zeroize::optimization_barrier, noop_barrier)]
+#[kani::unwind(82)]
+fn c13_get_pre_epoch_secret_provider_error() {
+    let p = GhostProvider::failing_at(0);
+    let (psk, _) = any_psk_secret();
+    let js = JoinerSecret::from(Zeroizing::new(any_exact::<NH>()));
+    let r = get_pre_epoch_secret(&p, &psk, &js);
+    assert!(is_provider_error(&r));
+    core::mem::forget(r);
+}
+
 fn small_context() -> GroupContext {
     let g: [u8; 2] = kani::any();
     let t: [u8; 1] = kani::any();
@@ -922,17 +949,90 @@ fn small_context() -> GroupContext {
     group_context(&g, &t, &h, None)
 }
 
+// from_joiner and from_key_schedule are checked MODULARLY: the function they tail-call
+// (from_epoch_secret, respectively from_joiner) is replaced by a recorder that stores its
+// arguments and returns a result with marker values; the callee itself is checked by its
+// own harness above / below.
+static mut SUB_CALLS: usize = 0;
+static mut SUB_SECRET: [u8; NH] = [0; NH];
+static mut SUB_TREE_SIZE: u32 = 0;
+static mut SUB_CONTEXT: *const GroupContext = core::ptr::null();
+static mut SUB_PSK: *const PskSecret = core::ptr::null();
+
+fn marker_result() -> KeyScheduleDerivationResult {
+    KeyScheduleDerivationResult {
+        key_schedule: KeySchedule {
+            exporter_secret: Zeroizing::new(vec![0xe1]),
+            authentication_secret: Zeroizing::new(vec![0xe2]),
+            external_secret: Zeroizing::new(vec![0xe3]),
+            membership_key: Zeroizing::new(vec![0xe4]),
+            init_secret: InitSecret(Zeroizing::new(vec![0xe5])),
+        },
+        confirmation_key: Zeroizing::new(vec![0xe6]),
+        joiner_secret: Zeroizing::new(vec![]).into(),
+        epoch_secrets: EpochSecrets {
+            resumption_secret: PreSharedKey::new(vec![0xe7]),
+            sender_data_secret: SenderDataSecret::from(vec![0xe8]),
+            secret_tree: SecretTree::empty(),
+        },
+    }
+}
+
+fn is_marker_result(r: &KeyScheduleDerivationResult) -> bool {
+    let ks = &r.key_schedule;
+    is_out(&ks.exporter_secret, 0xe1, 1)
+        && is_out(&ks.authentication_secret, 0xe2, 1)
+        && is_out(&ks.external_secret, 0xe3, 1)
+        && is_out(&ks.membership_key, 0xe4, 1)
+        && is_out(&ks.init_secret.0, 0xe5, 1)
+        && is_out(&r.confirmation_key, 0xe6, 1)
+        && is_out(r.epoch_secrets.resumption_secret.raw_value(), 0xe7, 1)
+        && is_out(&r.epoch_secrets.sender_data_secret, 0xe8, 1)
+}
+
+fn recording_from_epoch_secret<P: CipherSuiteProvider>(
+    _p: &P,
+    epoch_secret: &[u8],
+    secret_tree_size: u32,
+) -> Result<KeyScheduleDerivationResult, MlsError> {
+    assert!(epoch_secret.len() == NH);
+    unsafe {
+        *core::ptr::addr_of_mut!(SUB_CALLS) += 1;
+        (*core::ptr::addr_of_mut!(SUB_SECRET)).copy_from_slice(epoch_secret);
+        *core::ptr::addr_of_mut!(SUB_TREE_SIZE) = secret_tree_size;
+    }
+    Ok(marker_result())
+}
+
+fn recording_from_joiner<P: CipherSuiteProvider>(
+    _p: &P,
+    joiner_secret: &JoinerSecret,
+    context: &GroupContext,
+    secret_tree_size: u32,
+    psk_secret: &PskSecret,
+) -> Result<KeyScheduleDerivationResult, MlsError> {
+    assert!(joiner_secret.0.len() == NH);
+    unsafe {
+        *core::ptr::addr_of_mut!(SUB_CALLS) += 1;
+        (*core::ptr::addr_of_mut!(SUB_SECRET)).copy_from_slice(&joiner_secret.0);
+        *core::ptr::addr_of_mut!(SUB_TREE_SIZE) = secret_tree_size;
+        *core::ptr::addr_of_mut!(SUB_CONTEXT) = context as *const GroupContext;
+        *core::ptr::addr_of_mut!(SUB_PSK) = psk_secret as *const PskSecret;
+    }
+    Ok(marker_result())
+}
+
 // from_joiner: epoch_secret = ExpandWithLabel(Extract(joiner_secret, psk_secret), "epoch",
-// GroupContext_[n], KDF.Nh), then the nine epoch secrets
+// GroupContext_[n], KDF.Nh); the epoch's secrets are from_epoch_secret(epoch_secret)
 #[kani::proof]
 #[kani::stub(zeroize::optimization_barrier, noop_barrier)]
 #[kani::stub(std::hash::RandomState::new, fixed_random_state)]
-#[kani::stub(crate::group::secret_tree::SecretTree::new, recording_tree_new)]
-#[kani::unwind(16)]
+#[kani::stub(crate::group::key_schedule::KeySchedule::from_epoch_secret, recording_from_epoch_secret)]
+#[kani::unwind(82)]
 fn c13_from_joiner() {
     let p = GhostProvider::new();
     let joiner = any_exact::<NH>();
-    let (psk, psk_bytes) = foreign_psk_secret();
+    let (psk, psk_bytes) = any_psk_secret();
     let ctx = small_context();
     let js = JoinerSecret::from(Zeroizing::new(joiner.clone()));
 
@@ -940,26 +1040,34 @@ fn c13_from_joiner() {
     assert!(r.is_ok());
     let r = r.ok().unwrap();
 
+    assert!(p.calls() == 2);
     assert!(p.is(0, Op::Extract, &joiner, &psk_bytes, 0));
     let info = rfc_kdf_label(NH as u16, b"epoch", &rfc_group_context(&ctx));
     assert!(p.is(1, Op::Expand, &out(1, NH), &info, NH));
-    check_epoch_secrets(&p, 2, &out(2, NH), &r);
+    unsafe {
+        assert!(*core::ptr::addr_of!(SUB_CALLS) == 1);
+        assert!(is_out(&*core::ptr::addr_of!(SUB_SECRET), 2, NH));
+        assert!(*core::ptr::addr_of!(SUB_TREE_SIZE) == TREE_SIZE);
+    }
+    assert!(is_marker_result(&r));
     core::mem::forget((r, ctx));
 }
 
-// from_key_schedule (figure 22, top to "epoch_secret"):
+// from_key_schedule (figure 22, top to "joiner_secret"):
 //   joiner_secret = ExpandWithLabel(Extract(salt = init_secret_[n-1], ikm = commit_secret),
 //                                   "joiner", GroupContext_[n], KDF.Nh)
+// then from_joiner(joiner_secret, the same context, the same psk_secret); the result carries
+// from_joiner's secrets and the joiner secret
 #[kani::proof]
 #[kani::stub(zeroize::optimization_barrier, noop_barrier)]
 #[kani::stub(std::hash::RandomState::new, fixed_random_state)]
-#[kani::stub(crate::group::secret_tree::SecretTree::new, recording_tree_new)]
-#[kani::unwind(16)]
+#[kani::stub(crate::group::key_schedule::KeySchedule::from_joiner, recording_from_joiner)]
+#[kani::unwind(82)]
 fn c13_from_key_schedule() {
     let p = GhostProvider::new();
     let init = any_exact::<NH>();
     let commit = any_exact::<NH>();
-    let (psk, psk_bytes) = foreign_psk_secret();
+    let (psk, _) = any_psk_secret();
     let ctx = small_context();
     let last = KeySchedule::new(InitSecret(Zeroizing::new(init.clone())));
     let commit_secret = PathSecret::from(commit.clone());
@@ -969,12 +1077,18 @@ fn c13_from_key_schedule() {
     let r = r.ok().unwrap();
 
     let gc = rfc_group_context(&ctx);
+    assert!(p.calls() == 2);
     assert!(p.is(0, Op::Extract, &init, &commit, 0));
     assert!(p.is(1, Op::Expand, &out(1, NH), &rfc_kdf_label(NH as u16, b"joiner", &gc), NH));
     assert!(is_out(&r.joiner_secret.0, 2, NH));
-    assert!(p.is(2, Op::Extract, &out(2, NH), &psk_bytes, 0));
-    assert!(p.is(3, Op::Expand, &out(3, NH), &rfc_kdf_label(NH as u16, b"epoch", &gc), NH));
-    check_epoch_secrets(&p, 4, &out(4, NH), &r);
+    unsafe {
+        assert!(*core::ptr::addr_of!(SUB_CALLS) == 1);
+        assert!(is_out(&*core::ptr::addr_of!(SUB_SECRET), 2, NH));
+        assert!(*core::ptr::addr_of!(SUB_TREE_SIZE) == TREE_SIZE);
+        assert!(*core::ptr::addr_of!(SUB_CONTEXT) == &ctx as *const GroupContext);
+        assert!(*core::ptr::addr_of!(SUB_PSK) == &psk as *const PskSecret);
+    }
+    assert!(is_marker_result(&r));
     core::mem::forget((r, ctx, last));
 }
 
@@ -983,11 +1097,11 @@ fn c13_from_key_schedule() {
 // welcome_key = ExpandWithLabel(welcome_secret, "key", "", AEAD.Nk)
 #[kani::proof]
 #[kani::stub(zeroize::optimization_barrier, noop_barrier)]
-#[kani::unwind(12)]
+#[kani::unwind(82)]
 fn c13_welcome_secret() {
     let p = GhostProvider::new();
     let joiner = any_exact::<NH>();
-    let (psk, psk_bytes) = foreign_psk_secret();
+    let (psk, psk_bytes) = any_psk_secret();
     let js = JoinerSecret::from(Zeroizing::new(joiner.clone()));
 
     let r = WelcomeSecret::from_joiner_secret(&p, &js, &psk);
@@ -1006,42 +1120,53 @@ fn c13_welcome_secret() {
 // ============================================================ 5. exporter
 // MLS-Exporter(Label, Context, Length) =
 //     ExpandWithLabel(DeriveSecret(exporter_secret, Label), "exported", Hash(Context), Length)
-// every Length 0..=65535, label of every length 0..=4, context of length 0..=4 (symbolic bytes)
-#[kani::proof]
-#[kani::stub(zeroize::optimization_barrier, noop_barrier)]
-#[kani::unwind(12)]
-fn c13_export_secret_bounded_4() {
-    let exporter = any_exact::<NH>();
-    let context = any_bytes::<4>();
-    let l: [u8; 4] = kani::any();
-    let len: usize = kani::any();
-    kani::assume(len <= 0xffff);
-    let mut ks = KeySchedule::default();
-    ks.exporter_secret = Zeroizing::new(exporter.clone());
-    for_each_prefix(&l, |label| {
-        let p = GhostProvider::new();
-        let r = ks.export_secret(label, &context, len, &p);
-        assert!(r.is_ok());
-        let o = r.ok().unwrap();
-        assert!(p.calls() == 3);
-        let d = p.find(Op::Expand, &exporter, &rfc_kdf_label(NH as u16, label, &[]), NH);
-        let h = p.find(Op::Hash, &[], &context, 0);
-        assert!(d.is_some() && h.is_some());
-        let info = rfc_kdf_label(len as u16, b"exported", &out(h.unwrap(), HASH_LEN));
-        assert!(p.is(2, Op::Expand, &out(d.unwrap(), NH), &info, len));
-        assert!(o.len() == len);
-        let i: usize = kani::any();
-        kani::assume(i < len);
-        assert!(o[i] == 3);
-        core::mem::forget(o);
-    });
-    core::mem::forget(ks);
+// every Length 0..=65535, label of length 0..=4 (one harness per length), context of length
+// 0..=4 (symbolic bytes)
+macro_rules! export_secret_harness {
+    ($($name:ident: $ll:literal),* $(,)?) => { $(
+        #[kani::proof]
+        #[kani::stub(zeroize::optimization_barrier, noop_barrier)]
+        #[kani::unwind(82)]
+        fn $name() {
+            let exporter = any_exact::<NH>();
+            let context = any_bytes::<4>();
+            let label: [u8; $ll] = kani::any();
+            let len: usize = kani::any();
+            kani::assume(len <= 0xffff);
+            let mut ks = KeySchedule::default();
+            ks.exporter_secret = Zeroizing::new(exporter.clone());
+            let p = GhostProvider::new();
+
+            let r = ks.export_secret(&label, &context, len, &p);
+            assert!(r.is_ok());
+            let o = r.ok().unwrap();
+            assert!(p.calls() == 3);
+            let d = p.find(Op::Expand, &exporter, &rfc_kdf_label(NH as u16, &label, &[]), NH);
+            let h = p.find(Op::Hash, &[], &context, 0);
+            assert!(d.is_some() && h.is_some());
+            let info = rfc_kdf_label(len as u16, b"exported", &out(h.unwrap(), HASH_LEN));
+            assert!(p.is(2, Op::Expand, &out(d.unwrap(), NH), &info, len));
+            assert!(o.len() == len);
+            let i: usize = kani::any();
+            kani::assume(i < len);
+            assert!(o[i] == 3);
+            core::mem::forget((o, ks));
+        }
+    )* };
 }
+
+export_secret_harness!(
+    c13_export_secret_l0_bounded_4: 0,
+    c13_export_secret_l1_bounded_4: 1,
+    c13_export_secret_l2_bounded_4: 2,
+    c13_export_secret_l3_bounded_4: 3,
+    c13_export_secret_l4_bounded_4: 4,
+);
 
 // a deleted exporter secret yields ExporterDeleted and no KDF call
 #[kani::proof]
 #[kani::stub(zeroize::optimization_barrier, noop_barrier)]
-#[kani::unwind(12)]
+#[kani::unwind(82)]
 fn c13_export_secret_deleted() {
     let p = GhostProvider::new();
     let mut ks = KeySchedule::default();
